@@ -214,3 +214,73 @@ func c19Dup(shape int) (fail string) {
 	}
 	return ""
 }
+
+// c19FirstCalls: the very first Flush / Capabilities calls on a freshly built multi reporter come from
+// several goroutines at once; afterwards one more Flush must reach every child exactly once.
+func c19FirstCalls(cached bool, rounds int) string {
+	for r := 0; r < rounds; r++ {
+		log := &Log{}
+		const nk = 3
+		var flush func()
+		var capsOf func() tally.Capabilities
+		if cached {
+			var kids []tally.CachedStatsReporter
+			for i := 0; i < nk; i++ {
+				kids = append(kids, &RecCached{L: log, Src: i, Caps: caps{true, true}})
+			}
+			m := multi.NewMultiCachedReporter(kids...)
+			flush, capsOf = m.Flush, m.Capabilities
+		} else {
+			var kids []tally.StatsReporter
+			for i := 0; i < nk; i++ {
+				kids = append(kids, &RecReporter{L: log, Src: i, Caps: caps{true, true}})
+			}
+			m := multi.NewMultiReporter(kids...)
+			flush, capsOf = m.Flush, m.Capabilities
+		}
+		var ready, go_ int32
+		var wg sync.WaitGroup
+		const G = 4
+		for g := 0; g < G; g++ {
+			g := g
+			wg.Add(1)
+			go func() {
+				defer wg.Done()
+				atomic.AddInt32(&ready, 1)
+				for atomic.LoadInt32(&go_) == 0 {
+					runtime.Gosched()
+				}
+				if g%2 == 0 {
+					flush()
+				} else {
+					capsOf()
+				}
+			}()
+		}
+		for atomic.LoadInt32(&ready) < G {
+			runtime.Gosched()
+		}
+		atomic.StoreInt32(&go_, 1)
+		wg.Wait()
+		before := make([]int, nk)
+		for _, e := range log.Snapshot() {
+			if e.K == 6 {
+				before[e.Src]++
+			}
+		}
+		flush()
+		after := make([]int, nk)
+		for _, e := range log.Snapshot() {
+			if e.K == 6 {
+				after[e.Src]++
+			}
+		}
+		for i := 0; i < nk; i++ {
+			if before[i] != G/2 || after[i]-before[i] != 1 {
+				return fmt.Sprintf("round %d: the first calls on a new multi reporter with %d children came from %d goroutines at once (%d Flush, %d Capabilities); child %d was flushed %d times by them (expected %d) and %d times by one more Flush (expected 1); per child: %v then %v",
+					r, nk, G, G/2, G/2, i, before[i], G/2, after[i]-before[i], before, after)
+			}
+		}
+	}
+	return ""
+}
